@@ -211,12 +211,9 @@ def direct_oracle(j, c, line, be, res, conf):
 
 
 def x13_variant(c, be, res, m):
-    """`unwrap` of `none`: the VM throws, the interpreter raises a fatal ValueError (open finding X13,
-    C04/C12). The model follows today's code; the other class with the same message is tolerated so
-    that a repair of X13 does not break this tie."""
-    if c.get("member") != "unwrap" or not (res.startswith("INT") and m.startswith("INT")):
-        return False
-    return fields_of(res).get("msg") == fields_of(m).get("msg")
+    """Finding X13 (`unwrap` of `none` threw on the VM but was fatal on the interpreter) is repaired and the
+    model raises the same exception for both runtimes: no tolerance any more."""
+    return False
 
 
 def run_direct(j, cases):
